@@ -197,6 +197,20 @@ def isStringLenient (t : List Byte) : Bool :=
   | 39 :: r => r.getLast? == some 39
   | _ => false
 
+/-! ## layout between a value and its delimiter -/
+
+/-- blanks and Part 21 comments `/* … */`; a last comment that is never closed swallows the rest of the input -/
+inductive Layout : List Byte → Prop where
+  | nil : Layout []
+  | blank {c : Byte} {m : List Byte} : isSpace c = true → Layout m → Layout (c :: m)
+  | comment {body m : List Byte} : Layout m → Layout (47 :: 42 :: (body ++ 42 :: 47 :: m))
+  | unterminated {body : List Byte} : Layout (47 :: 42 :: body)
+
+/-- what may stand between a value and the delimiter, for the scanner configuration at hand: blanks, and comments when
+    `CheckRemainingInput` skips them -/
+def Between (cfg : LexCfg) (m : List Byte) : Prop :=
+  if cfg.criSkipsComments then Layout m else m.all isSpace = true
+
 /-! ## classification used by the oracle -/
 
 /-- verdict of the grammar on a token -/
